@@ -284,7 +284,19 @@ func c10ExecBolt(f []string) string {
 				r3 = "differs"
 			}
 		}
-		res = "bolt=" + r1 + " iter=" + r2 + " twice=" + r3
+		// the same query with the process-wide debug configuration switched on
+		r4 := "same"
+		c10UnderDebugConfig(func() {
+			ids, _, err := b.things.QueryIds(tx, text)
+			rd := "err"
+			if err == nil {
+				rd = fmt.Sprintf("ok:%d", len(ids))
+			}
+			if rd != r1 {
+				r4 = "differs:" + rd
+			}
+		})
+		res = "bolt=" + r1 + " iter=" + r2 + " twice=" + r3 + " cfg=" + r4
 		return nil
 	})
 	return res
